@@ -316,18 +316,80 @@ def _row_align_rest(ctx):
 
 
 def _atoms_extend_rules(ctx):
+    """System.atoms_extend interpreted on a model system (model atom table with its own extend, model cell with the affine conversion, recording System constructor)"""
+    import numpy as np
+    from ..symx import symarray
     ae = ctx.fn(SYS, 'System.atoms_extend')
-    st = [s for s in ast.walk(ae) if isinstance(s, ast.Assign) and isinstance(s.targets[0], ast.Subscript) and norm(s.targets[0].value) == 'atoms.pos']
-    ok = len(st) == 1 and isinstance(st[0].targets[0].slice, ast.Slice) and norm(st[0].targets[0].slice.lower) == 'self.natoms' and st[0].targets[0].slice.upper is None \
-        and norm(st[0].value) == 'self.box.position_relative_to_cartesian(value.pos)' and isinstance(st[0]._parent, ast.If) and norm(st[0]._parent.test) == 'scale'
-    ctx.ob('ROW-ALIGN', SYS + '::System.atoms_extend', 'scaled input positions are unscaled into exactly the appended rows [natoms_self:]', ok, norm(st[0]) if st else '', node=st[0] if st else ae)
-    c = [x for x in calls_in(ae) if norm(x.func) == 'self.atoms.extend']
-    ctx.ob('ROW-ALIGN', SYS + '::System.atoms_extend', 'the atoms are extended by Atoms.extend (receiver first)', len(c) == 1 and norm(c[0].args[0]) == 'value', node=ae)
-    r = [x for x in calls_in(ae) if norm(x.func) == 'System']
-    ok = len(r) == 1 and norm(kwarg(r[0], 'atoms')) == 'atoms' and norm(kwarg(r[0], 'pbc')) == 'self.pbc' and norm(kwarg(r[0], 'symbols')) == 'symbols' and norm(kwarg(r[0], 'box')) == 'box'
-    ctx.ob('ROW-ALIGN', SYS + '::System.atoms_extend', 'the new system carries the extended atoms with the receiver\'s box, periodicity and symbols', ok, node=ae)
-    t = [s for s in ae.body if isinstance(s, ast.If) and 'scale is True' in norm(s.test) and 'isinstance(value, Atoms)' in norm(s.test)]
-    ctx.ob('ROW-ALIGN', SYS + '::System.atoms_extend', 'scale=True with a count is refused', len(t) == 1 and any(isinstance(x, ast.Raise) for x in t[0].body), node=ae)
+    cls = ctx.fn(SYS, 'System')
+    loc = SYS + '::System.atoms_extend'
+    V, o = symarray('v', (3, 3), real=True), symarray('o', (3,), real=True)
+    P0, P1 = symarray('x', (2, 3), real=True), symarray('y', (3, 3), real=True)
+
+    class AtomsM(PyStub):
+        _isa = ('Atoms',)
+
+        def __init__(self, pos, tag):
+            self.pos, self.tag = pos, tag
+            self.natoms = len(pos)
+            self.natypes = 2
+            self.extended_by = None
+
+        def extend(self, value):
+            new = AtomsM(np.concatenate([self.pos, value.pos if isinstance(value, AtomsM) else np.zeros((int(value), 3), dtype=object)]), self.tag + '+')
+            new.extended_by = value
+            return new
+
+        def __deepcopy__(self, memo=None):
+            c = AtomsM(self.pos.copy(), self.tag + ' copy')
+            return c
+
+    class BoxM(PyStub):
+        _isa = ('Box',)
+
+        def position_relative_to_cartesian(self, r):
+            return np.asarray(r, dtype=object).dot(V) + o
+
+        def __deepcopy__(self, memo=None):
+            return BoxM()
+
+    class Made(PyStub):
+        def __init__(self, **kw):
+            self.kw = kw
+    for tag, scale, safe, val in (('Cartesian positions', False, False, 'atoms'), ('box-relative positions', True, False, 'atoms'), ('box-relative positions, safecopy', True, True, 'atoms'), ('a count', False, False, 2)):
+        me_atoms, box = AtomsM(P0.copy(), 'self'), BoxM()
+        value = AtomsM(P1.copy(), 'value') if val == 'atoms' else val
+        me = SymObj(cls, {'_System__atoms': me_atoms, '_System__box': box, '_System__pbc': 'PBC', '_System__symbols': ('Al', 'Cu')}, 'self')
+        ev = SymEval(module_aliases(ctx.mod(SYS)))
+        ev.globals = {'System': lambda **kw: Made(**kw), 'Atoms': AtomsM, 'deepcopy': lambda x: (x.__deepcopy__() if hasattr(x, '__deepcopy__') else x)}
+        ev.np_override = {}
+        try:
+            live = [q for q in ev.run_fn(ae, [me, value], dict(scale=scale, safecopy=safe)) if q.done == 'return']
+        except WouldRaise as e:
+            ctx.ob('ROW-ALIGN', loc, 'extending by %s: accepted' % tag, False, str(e), node=ae, key='extend runs ' + tag)
+            continue
+        except Opaque as e:
+            raise AnalysisError('System.atoms_extend (%s): %s' % (tag, e))
+        ctx.need(len(live) == 1 and isinstance(live[0].ret, Made), 'System.atoms_extend does not return one new System (%s)' % tag)
+        kw = live[0].ret.kw
+        at = kw.get('atoms')
+        n1 = 3 if val == 'atoms' else 2
+        tail = (P1.dot(V) + o if scale else P1) if val == 'atoms' else np.zeros((2, 3), dtype=object)
+        ok = isinstance(at, AtomsM) and at is not me_atoms and len(at.pos) == 2 + n1 and equal(np.asarray(at.pos[:2], dtype=object), P0, deep=False) and equal(np.asarray(at.pos[2:], dtype=object), np.asarray(tail, dtype=object), deep=False)
+        ctx.ob('ROW-ALIGN', loc, 'extending by %s: the receiver\'s rows come first and unchanged, the appended rows [natoms_self:] hold the new positions%s' % (tag, ' converted to Cartesian with the receiver\'s cell' if scale else ''),
+               bool(ok), node=ae, key='extend rows ' + tag)
+        okc = kw.get('pbc') == 'PBC' and tuple(kw.get('symbols') or ()) == ('Al', 'Cu') and isinstance(kw.get('box'), BoxM) and ((kw.get('box') is box) != safe)
+        ctx.ob('ROW-ALIGN', loc, 'extending by %s: the new system carries the extended atoms with the receiver\'s box (a copy with safecopy), periodicity and symbols' % tag, bool(okc), str({k_: type(v_).__name__ for k_, v_ in kw.items()}), node=ae,
+               key='extend system ' + tag)
+        okp = equal(me_atoms.pos, P0, deep=False) and (val != 'atoms' or equal(value.pos, P1, deep=False))
+        ctx.ob('ROW-ALIGN', loc, 'extending by %s: the receiver and the appended operand keep their positions' % tag, bool(okp), node=ae, key='extend operands ' + tag)
+    me = SymObj(cls, {'_System__atoms': AtomsM(P0.copy(), 'self'), '_System__box': BoxM(), '_System__pbc': 'PBC', '_System__symbols': ('Al', 'Cu')}, 'self')
+    ev = SymEval(module_aliases(ctx.mod(SYS)))
+    ev.globals = {'System': lambda **kw: Made(**kw), 'Atoms': AtomsM, 'deepcopy': lambda x: x}
+    try:
+        acc = bool([q for q in ev.run_fn(ae, [me, 2], dict(scale=True)) if q.done == 'return'])
+    except WouldRaise:
+        acc = False
+    ctx.ob('ROW-ALIGN', loc, 'scale=True with a count is refused', not acc, node=ae, key='extend refuse count')
 
 
 def type_lists(ctx):
